@@ -733,6 +733,31 @@ def suite_layered(ctx):
                     res[(m, meth)] = (
                         sim.data.synthetic.data.copy(),
                         dict(sim.layered_opts.get('ellipse', {})))
+                # properties of the gridding options come in THEIR OWN
+                # mapping: the default radius follows from them, whatever the
+                # parametrisation of the model is
+                for gm, gprops in (('Resistivity', [2.0, 0.5, 0.25]),
+                                   ('LgConductivity', [0.3, -0.5])):
+                    gmp = getattr(emg3d.maps, 'Map'+gm)()
+                    simg = emg3d.Simulation(
+                        survey=survey.copy(), model=model, layered=True,
+                        layered_opts={'method': 'cylinder'},
+                        gridding='single',
+                        gridding_opts={'properties': gprops, 'mapping': gm},
+                        max_workers=1, verb=-1, tqdm_opts=False)
+                    got_r = simg.layered_opts['ellipse']['radius']
+                    ind = -1 if len(gprops) < 3 else -2
+                    want_r = emg3d.meshes.skin_depth(
+                        8.0, float(gmp.backward(np.array(gprops[ind]))))
+                    if not abs(got_r - want_r) <= 1e-9*want_r:
+                        bad.append(('radius', m, gm, got_r, want_r))
+                        ctx.violation(
+                            'layered-radius-ignores-gridding-mapping',
+                            f'layered default radius for a model in {m} with '
+                            f'gridding_opts properties {gprops} given as {gm}: '
+                            f'{got_r!r}, one skin depth of that property is '
+                            f'{want_r!r}', {'model_mapping': m,
+                                            'gridding_mapping': gm})
             ctx.count(key=('layered', m, vti))
         for (m, meth), (dat, ell) in res.items():
             b, bell = res[('Conductivity', meth)]
